@@ -1,17 +1,30 @@
 PROP = "C01"
 LEVEL = "proof"
-CONTRACT_MODULES = ["rdp", "linear_fit"]
+CONTRACT_MODULES = ["rdp", "linear_fit", "evaluation"]
 DEDUCTIVE = [
     ("rdp", "kneeliverse.rdp.rdp"),
     ("rdp", "kneeliverse.rdp.compute_removed_points"),
+    ("rdp", "kneeliverse.rdp._rdp_fixed"),
+    ("rdp", "kneeliverse.rdp.rdp_fixed#n>2"),
+    ("rdp", "kneeliverse.rdp.rdp_fixed#n=2"),
+    ("rdp", "kneeliverse.rdp._grdp", "thorough"),
+    ("rdp", "kneeliverse.rdp.grdp#n>2"),
+    ("rdp", "kneeliverse.rdp.grdp#n=2"),
+    ("rdp", "kneeliverse.rdp.mp_grdp#n>2"),
+    ("rdp", "kneeliverse.rdp.mp_grdp#n=2"),
+    ("rdp", "kneeliverse.rdp.min_point_rdp"),
 ]
-EXPLANATION = ("Threshold RDP (rdp.rdp): termination within 2n-3 loop iterations (variant), strictly increasing result from 0 to n-1 and the "
-               "removed table are proved for all n, both distances and all five metrics in mode U (numeric leaf functions uninterpreted, so "
-               "no floating-point assumption). compute_removed_points is proved. The other simplifiers (rdp_fixed, grdp, mp_grdp, "
-               "min_point_rdp) are covered by the bounded layer only (labelled).")
-LEVEL_TEXT = ("Proof for threshold RDP and the removed-table helper (VCs from the real source, loop invariant: the work stack tiles "
-              "[frontier, n), variant 2(n-1-frontier)-|stack|); bounded run-time layer for the remaining simplifiers, with the number of "
-              "refinement steps counted against a linear bound.")
-LEVEL_NOTE = ("Summaries of lf.linear_fit_points, lf.*_distance_points, rdp.compute_cost_coef are assumed total and deterministic "
-              "(uninterpreted, mode U); np.argmax contract assumed; A-NAN. rdp_fixed/grdp/mp_grdp/min_point_rdp: bounded only.")
+EXPLANATION = ("All simplifiers are under contract in mode U (numeric leaf functions uninterpreted: no floating-point assumption). "
+               "rdp.rdp: termination within 2n-3 iterations, strictly increasing result from 0 to n-1, removed table. _rdp_fixed / rdp_fixed: "
+               "one retained point per iteration (variant = remaining budget), the refinement state invariant (duplicate-free index set with both "
+               "ends; pending segments pairwise disjoint with no retained interior point; counting identity n - |reduced| = sum of interior "
+               "points of pending segments), exact size, sorted result, removed table. _grdp (thorough tier: ~690 s of solver time): the same "
+               "state invariant with the shared cost cache kept consistent, variant n - |reduced| (pigeonhole lemma assumed). grdp, mp_grdp, "
+               "min_point_rdp: compositions over the callee contracts. compute_removed_points is proved.")
+LEVEL_TEXT = ("Proof for every simplifier: termination with a linear bound (loop variants), strictly increasing index list from 0 to n-1 and the "
+              "removed table, for all curves, distances, metrics, orderings, thresholds and sizes; bounded run-time layer as a cross-check "
+              "with refinement steps counted.")
+LEVEL_NOTE = ("Summaries of lf.linear_fit_points, the distance functions, order_*, compute_cost_coef, compute_partial_cost assumed total and "
+              "deterministic (uninterpreted, mode U); np.argmax / np.all / list.sort contracts and the pigeonhole lemma assumed; A-NAN. "
+              "_grdp is verified in the thorough tier only (its callers are verified against its contract in both tiers).")
 TECHNIQUE = "contract-based deductive verification (AST->VC, z3) of the real functions; bounded run-time layer as labelled stand-in"
